@@ -1,57 +1,12 @@
 // ---- prelude (unit list_more): E12 adapter wrappers (assumed; each body is exactly the std call, each contract restates the rustdoc) ----
-// used through the extractor option `wrap=enumerate,copied,sum,all,chain,fn:once`: `RECV.m(ARGS)` -> `vx_m(RECV, ARGS)`, `once(x)` -> `vx_once(x)`
+// used through the extractor option `wrap=all,chain,fn:once`: `RECV.m(ARGS)` -> `vx_m(RECV, ARGS)`, `once(x)` -> `vx_once(x)`
 // needs at crate top:  use vstd::std_specs::iter::IteratorSpec;
-// `vx_count` comes from prelude/blanket_std.rs.  prelude/iter_wrappers.rs is NOT included: its `vx_enumerate` says nothing about
-// `decrease()`, without which Verus rejects a `for` loop over the enumerated iterator (AdjacencyList::converse); the superset below
-// is the one of prelude/dm_metrics_std.rs.  `seq_sum`, `vx_copied`, `vx_sum` are verbatim copies of prelude/iter_wrappers.rs.
+// `vx_enumerate`, `vx_copied`, `vx_sum` come from prelude/iter_wrappers.rs, `vx_count` from prelude/blanket_std.rs (both included
+// by the unit); this file adds `vx_all`, `vx_once`, `vx_chain`.
 //
 // vstd's prophetic model: `remaining()` of an adapter is the sequence of items that WILL be pulled from it; it is the whole
 // sequence only if the adapter is driven until it returns None (`will_return_none()`).  Sources (slice / range / BTreeSet
 // iterators, `once`) have a `remaining()` that does not depend on the future.
-
-spec fn seq_sum(s: Seq<usize>) -> int
-    decreases s.len(),
-{
-    if s.len() == 0 { 0 } else { seq_sum(s.drop_last()) + s.last() }
-}
-
-// rustdoc Iterator::enumerate: "Creates an iterator which gives the current iteration count as well as the next value.
-// The iterator returned yields pairs (i, val), where i is the current index of iteration and val is the value returned by
-// the iterator."  (An item sequence is a Seq of exec values taken from memory, hence shorter than usize::MAX: no overflow.)
-// `Enumerate::next` calls the inner `next` exactly once and returns None exactly when the inner iterator does, so termination
-// of `next` (`decrease()`) and reaching None (`will_return_none()`) carry over.
-#[verifier::external_body]
-fn vx_enumerate<I: Iterator>(it: I) -> (r: impl Iterator<Item = (usize, I::Item)>)
-    ensures
-        r.obeys_prophetic_iter_laws() == it.obeys_prophetic_iter_laws(),
-        r.decrease() is Some == it.decrease() is Some,
-        r.will_return_none() == it.will_return_none(),
-        r.remaining().len() == it.remaining().len(),
-        forall|i: int| 0 <= i < it.remaining().len() ==> #[trigger] r.remaining()[i] == (i as usize, it.remaining()[i]),
-{ it.enumerate() }
-
-// rustdoc Iterator::copied: "Creates an iterator which copies all of its elements. This is useful when you have an iterator
-// over &T, but you need an iterator over T."
-#[verifier::external_body]
-fn vx_copied<'a, T: Copy + 'a, I: Iterator<Item = &'a T>>(it: I) -> (r: impl Iterator<Item = T>)
-    ensures
-        r.obeys_prophetic_iter_laws() == it.obeys_prophetic_iter_laws(),
-        r.decrease() is Some == it.decrease() is Some,
-        r.remaining() == it.remaining().unref(),
-{ it.copied() }
-
-// rustdoc Iterator::sum: "Sums the elements of an iterator. Takes each element, adds them together, and returns the result.
-// An empty iterator returns the additive identity ("zero") of the type. ... Panics: When calling sum() and a primitive
-// integer type is being returned, this method will panic if the computation overflows and overflow checks are enabled."
-// (Without overflow checks the result wraps; the contract therefore says nothing when the mathematical sum exceeds usize.)
-// `sum` consumes the whole iterator, so (as in vstd's contract of `Iterator::collect`) the prophesied item sequence
-// `remaining()` is complete: `will_return_none()`.
-#[verifier::external_body]
-fn vx_sum<I: Iterator<Item = usize>>(it: I) -> (r: usize)
-    ensures
-        it.obeys_prophetic_iter_laws() ==> it.will_return_none(),
-        it.obeys_prophetic_iter_laws() && seq_sum(it.remaining()) <= usize::MAX ==> r == seq_sum(it.remaining()),
-{ it.sum() }
 
 // rustdoc Iterator::all: "Tests if every element of the iterator matches a predicate. all() takes a closure that returns true or
 // false. It applies this closure to each element of the iterator, and if they all return true, then so does all(). If any of
